@@ -3,7 +3,8 @@ from ..comp import multiple as mc
 from . import C04
 
 PROP = "C11"
-PROP_BITS = (3, 4, 5)       # monotone / rollback / early-exit clauses on the implementation's observations
+PROP_BITS = (3, 4, 5, 6)    # monotone / rollback / early-exit clauses on the implementation's observations;
+                            # 6 = a score value differs from the documented column score
 
 
 def main(tier, seed):
